@@ -1,4 +1,4 @@
-(** * Model of src/functions/interpolate.rs (after the repair of D29).
+(** * Model of src/functions/interpolate.rs (after the repair of D29 and of the extrapolation formulas).
     [interp_unchecked] = interp1d_linear_unchecked, [interp_checked] = interp1d_linear.
     [None] = panic.  No proofs in this file. *)
 From Coq Require Import List Arith Bool.
@@ -26,13 +26,15 @@ Section Interp.
     let ratio := div O (sub O t x[[idx - 1]]) (sub O x[[idx]] x[[idx - 1]]) in
     add O (mul O ratio y[[idx]]) (mul O (sub O (one O) ratio) y[[idx - 1]]).
 
+  (** the two extrapolation formulas (after the repair: the end segment's line is continued through the
+      distance ratio, not through the slope, which overflowed / underflowed for steep / flat end segments) *)
   Definition extrap_left (x y : list T) (t : T) : T :=
-    let slope := div O (sub O y[[1]] y[[0]]) (sub O x[[1]] x[[0]]) in
-    add O (mul O (neg O slope) (sub O x[[0]] t)) y[[0]].
+    let ratio := div O (sub O x[[0]] t) (sub O x[[1]] x[[0]]) in
+    sub O y[[0]] (mul O ratio (sub O y[[1]] y[[0]])).
 
   Definition extrap_right (x y : list T) (n : nat) (t : T) : T :=
-    let slope := div O (sub O y[[n - 1]] y[[n - 2]]) (sub O x[[n - 1]] x[[n - 2]]) in
-    add O (mul O slope (sub O t x[[n - 1]])) y[[n - 1]].
+    let ratio := div O (sub O t x[[n - 1]]) (sub O x[[n - 1]] x[[n - 2]]) in
+    add O y[[n - 1]] (mul O ratio (sub O y[[n - 1]] y[[n - 2]])).
 
   (** one iteration of the loop over the targets; [n = x.len() = y.len()].
       n = 0: `n - 1` underflows (debug: overflow panic; release: the scan indexes x[0]) — a panic either way.
